@@ -24,6 +24,9 @@ STRATS = ["build", "block", "bfs", "dfs", "scc", "aseeds"]
 CASE_TIMEOUT = {"quick": 40, "thorough": 120}
 
 
+ISO_INPUT = 0.05    # share of cases with an additional isolated free input
+
+
 def budget(tier):
     return 900 if tier == "quick" else 9000
 
